@@ -1,6 +1,7 @@
 """C13 Hashing neither depends on nor disturbs the caller's FP environment."""
 import astq
 from rules import driver, jit
+from rules.C14 import rule_globals
 
 LEVEL = 'other'
 TECHNIQUE = 'dominator / post-dominator analysis on the driver CFGs (CSR and fenv builds), known-bits abstract interpretation of the control words, whole-library scan for FP-control writers'
@@ -23,3 +24,4 @@ def run(ctx, R):
     driver.rule_resetword(ctx, R, F)
     driver.rule_noleak(ctx, R)
     jit.rule_cfr_x86(ctx, R, F)
+    rule_globals(ctx, R)    # the saved control word lives in the calling thread (no shared static state between concurrent hashes)
